@@ -1,11 +1,12 @@
 (* C19 - Comparisons and membership tests match CPython.
    Only statements; proofs live in Proof/P_Cmp.v (cascades, FlattenInListTransform) and
-   Proof/P_CmpSw.v (SwitchTransform), Proof/P_CmpInt.v (PyObjectCompare on two ints).
-   Models: Model/M_Cmp.v, Model/M_CmpInt.v.  In every model function the
+   Proof/P_CmpSw.v (SwitchTransform), Proof/P_CmpInt.v (PyObjectCompare on two ints),
+   Proof/P_CmpFloat.v (PyObjectCompare on a float and an int).
+   Models: Model/M_Cmp.v, Model/M_CmpInt.v, Model/M_CmpFloat.v.  In every model function the
    boolean flag selects the code as it is (false) or the proposed repair (true). *)
 From Coq Require Import ZArith List Bool.
 From CyVerif Require Import Lib.CInt Lib.PyLong Model.M_Cmp Proof.P_Cmp Proof.P_CmpSw.
-From CyVerif Require Import Model.M_CmpInt Proof.P_CmpInt.
+From CyVerif Require Import Model.M_CmpInt Proof.P_CmpInt Model.M_CmpFloat Proof.P_CmpFloat.
 Import ListNotations.
 Open Scope Z_scope.
 
@@ -217,6 +218,95 @@ Example C19_intint_nonvacuous :
   cmp_values lp64_312 OpLt false (2 ^ 60 + 1) (2 ^ 60 + 2) = Some true /\
   branch_values lp64_312 (2 ^ 60 + 1) (2 ^ 60 + 2) = (6, 3).
 Proof. exact lowest_digit_decides. Qed.
+
+(* ---- PyObjectCompare on an exact float and an exact int (Cython/Utility/Optimize.c:
+        __Pyx_PyObject_CompareFloatInt<Op> / __Pyx_PyObject_CompareIntFloat<Op>).  A double is nan,
+        an infinity or a finite dyadic rational n / 2^k (DFin n k; every IEEE double is one).
+        For every operator, every such double, every well-formed CPython int (any sign, any
+        number of digits) and every configuration satisfying fcfg_ok - CYTHON_USE_PYLONG_INTERNALS
+        on or off, lv_tag or ob_size layout - the helper returns the comparison of the two VALUES
+        (fop / zfop: cross-multiplied integers, = the order of the rationals, see
+        C19_float_oracle_is_rational_order), and never converts an integer to double inexactly
+        (Some).  rich = the final PyObject_RichCompare, contract: CPython compares exactly ---- *)
+Theorem C19_floatint_eq : forall c rich op f b,
+  fcfg_ok c -> (forall o g z, rich o g z = fop o g z) ->
+  dbl_ok f -> wf (i_sh (f_i c)) b ->
+  cmp_floatint c rich op f b = Some (fop op f (value (i_sh (f_i c)) b)).
+Proof. exact floatint_correct. Qed.
+Print Assumptions C19_floatint_eq.
+
+Theorem C19_intfloat_eq : forall c rich op a f,
+  fcfg_ok c -> (forall o z g, rich o z g = zfop o z g) ->
+  dbl_ok f -> wf (i_sh (f_i c)) a ->
+  cmp_intfloat c rich op a f = Some (zfop op (value (i_sh (f_i c)) a) f).
+Proof. exact intfloat_correct. Qed.
+Print Assumptions C19_intfloat_eq.
+
+(* the dispatcher on exact float / int operands in any combination (float-float = the C
+   comparison of the doubles; int-int with the identity shortcut) *)
+Theorem C19_num_eq : forall c rfz rzf rzz op (same : bool) a b,
+  fcfg_ok c -> (forall o g z, rfz o g z = fop o g z) -> (forall o z g, rzf o z g = zfop o z g) ->
+  (forall o x y, rzz o x y = zop o x y) ->
+  num_ok (i_sh (f_i c)) a -> num_ok (i_sh (f_i c)) b ->
+  (same = true -> a = b) -> (same = true -> exists x, a = NInt x) ->
+  cmp_num c rfz rzf rzz op same a b = Some (num_op (i_sh (f_i c)) op a b).
+Proof. exact num_correct. Qed.
+Print Assumptions C19_num_eq.
+
+(* the two preprocessor variants (and the two struct layouts) of each helper agree *)
+Theorem C19_floatint_variants_agree : forall c1 c2 rich op f b,
+  fcfg_ok c1 -> fcfg_ok c2 -> i_sh (f_i c1) = i_sh (f_i c2) ->
+  (forall o g z, rich o g z = fop o g z) -> dbl_ok f -> wf (i_sh (f_i c1)) b ->
+  cmp_floatint c1 rich op f b = cmp_floatint c2 rich op f b.
+Proof. exact floatint_variants_agree. Qed.
+Print Assumptions C19_floatint_variants_agree.
+
+Theorem C19_intfloat_variants_agree : forall c1 c2 rich op a f,
+  fcfg_ok c1 -> fcfg_ok c2 -> i_sh (f_i c1) = i_sh (f_i c2) ->
+  (forall o z g, rich o z g = zfop o z g) -> dbl_ok f -> wf (i_sh (f_i c1)) a ->
+  cmp_intfloat c1 rich op a f = cmp_intfloat c2 rich op a f.
+Proof. exact intfloat_variants_agree. Qed.
+Print Assumptions C19_intfloat_variants_agree.
+
+Theorem C19_intint_variants_agree : forall c1 c2 rich op a b,
+  cfg_ok c1 -> cfg_ok c2 -> i_sh c1 = i_sh c2 ->
+  (forall o x y, rich o x y = zop o x y) -> wf (i_sh c1) a -> wf (i_sh c1) b ->
+  cmp_intint c1 rich op a b = cmp_intint c2 rich op a b.
+Proof. exact intint_variants_agree. Qed.
+Print Assumptions C19_intint_variants_agree.
+
+(* the oracle is the order of the rational n / 2^k and the integer z *)
+Theorem C19_float_oracle_is_rational_order : forall n k z, 0 <= k ->
+  fz_cmp (DFin n k) z = Some (QArith_base.Qcompare (q_of n k) (QArith_base.inject_Z z)) /\
+  zf_cmp z (DFin n k) = Some (QArith_base.Qcompare (QArith_base.inject_Z z) (q_of n k)).
+Proof. intros n k z H. exact (conj (fz_cmp_rational n k z H) (zf_cmp_rational n k z H)). Qed.
+Print Assumptions C19_float_oracle_is_rational_order.
+
+(* configurations: CPython 3.12 LP64 with internals (run) and without (run), pre-3.12 layout *)
+Theorem C19_floatint_configs : fcfg_ok f_lp64_312 /\ fcfg_ok f_lp64_noint /\ fcfg_ok f_lp64_311.
+Proof. exact (conj fcfg_ok_lp64_312 (conj fcfg_ok_lp64_noint fcfg_ok_lp64_311)). Qed.
+Print Assumptions C19_floatint_configs.
+
+(* NOT covered by fcfg_ok, and false there: a 32-bit long (LLP64) without PyLong internals.
+   PyLong_AsLongAndOverflow overflows from 2^31 on, but the shortcut taken on overflow assumes
+   the int is at least 2^53:  2.0**45 < 2**40  evaluates to True.  (Not reproducible on this
+   LP64 machine; the model follows the C text.) *)
+Theorem C19_floatint_long32_refuted :
+  exists op f z, dbl_ok f /\
+    cmp_floatint f_llp64_noint fop op f (of_Z 30 z) <> Some (fop op f z).
+Proof. exact floatint_long32_refuted. Qed.
+Print Assumptions C19_floatint_long32_refuted.
+
+(* non-trivial instance: -1.5 against -(2**40) (float of small magnitude, negative multi-digit
+   int) is decided by the same-sign shortcut (branch 4) with internals and as doubles (7) without *)
+Example C19_floatint_nonvacuous :
+  let b := of_Z 30 (- 2 ^ 40) in let f := DFin (-3) 1 in
+  cmp_floatint f_lp64_312 fop OpLt f b = Some false /\
+  cmp_floatint f_lp64_312 fop OpGt f b = Some true /\
+  cmp_floatint f_lp64_noint fop OpLt f b = Some false /\
+  cmp_intfloat f_lp64_312 zfop OpLt b f = Some true /\
+  fbranch f_lp64_312 false f b = 4 /\ fbranch f_lp64_noint false f b = 7.
+Proof. exact small_float_vs_big_int. Qed.
 
 (* the hypotheses are satisfiable on non-trivial values: a 3-link cascade that stops at the
    second link, a flattened test with two member temps, an accepted 3-clause chain *)
